@@ -11,10 +11,21 @@ package httpserver
 
 import (
 	"net/http"
+	"strings"
 
 	"github.com/julienschmidt/httprouter"
 	"github.com/spf13/viper"
 )
+
+// moduleConfigured reports whether a module with the given name is configured in the given section ("storage",
+// "cluster", "consumer", ...). The name comes from the request URL, so it must not be interpreted as a configuration
+// path: viper.IsSet(section + "." + name) is true for names like "mymodule.class-name", which are not modules. The name
+// is looked up among the keys of the section instead, which is also how the coordinators and the module list endpoints
+// enumerate modules. Configuration keys are case-insensitive (viper stores them in lower case).
+func moduleConfigured(section, name string) bool {
+	_, ok := viper.GetStringMap(section)[strings.ToLower(name)]
+	return ok
+}
 
 func (hc *Coordinator) configMain(w http.ResponseWriter, r *http.Request, _ httprouter.Params) {
 	// Build JSON structs for config
@@ -129,7 +140,7 @@ func (hc *Coordinator) configNotifierList(w http.ResponseWriter, r *http.Request
 
 func (hc *Coordinator) configStorageDetail(w http.ResponseWriter, r *http.Request, params httprouter.Params) {
 	configRoot := "storage." + params.ByName("name")
-	if !viper.IsSet(configRoot) {
+	if !moduleConfigured("storage", params.ByName("name")) {
 		hc.writeErrorResponse(w, r, http.StatusNotFound, "storage module not found")
 	} else {
 		requestInfo := makeRequestInfo(r)
@@ -150,7 +161,7 @@ func (hc *Coordinator) configStorageDetail(w http.ResponseWriter, r *http.Reques
 
 func (hc *Coordinator) configConsumerDetail(w http.ResponseWriter, r *http.Request, params httprouter.Params) {
 	configRoot := "consumer." + params.ByName("name")
-	if !viper.IsSet(configRoot) {
+	if !moduleConfigured("consumer", params.ByName("name")) {
 		hc.writeErrorResponse(w, r, http.StatusNotFound, "consumer module not found")
 	} else {
 		requestInfo := makeRequestInfo(r)
@@ -175,7 +186,7 @@ func (hc *Coordinator) configConsumerDetail(w http.ResponseWriter, r *http.Reque
 
 func (hc *Coordinator) configEvaluatorDetail(w http.ResponseWriter, r *http.Request, params httprouter.Params) {
 	configRoot := "evaluator." + params.ByName("name")
-	if !viper.IsSet(configRoot) {
+	if !moduleConfigured("evaluator", params.ByName("name")) {
 		hc.writeErrorResponse(w, r, http.StatusNotFound, "evaluator module not found")
 	} else {
 		requestInfo := makeRequestInfo(r)
@@ -291,7 +302,7 @@ func (hc *Coordinator) configNotifierNull(w http.ResponseWriter, r *http.Request
 
 func (hc *Coordinator) configNotifierDetail(w http.ResponseWriter, r *http.Request, params httprouter.Params) {
 	configRoot := "notifier." + params.ByName("name")
-	if !viper.IsSet(configRoot) {
+	if !moduleConfigured("notifier", params.ByName("name")) {
 		hc.writeErrorResponse(w, r, http.StatusNotFound, "notifier module not found")
 	} else {
 		// Return the right profile structure
